@@ -10,7 +10,7 @@ namespace RgVerif.Searcher
 open RgVerif RgVerif.Matcher RgVerif.Lines RgVerif.GrepSpec RgVerif.LineBuffer
 
 theorem win_of_window (inp : Bytes) (abs len : Nat) (h : abs + len ≤ inp.length) :
-    Win inp (inp.take abs) (window inp abs len) (inp.drop (abs + len)) ∧ (inp.take abs).length = abs := by
+    WinOf inp (inp.take abs) (window inp abs len) (inp.drop (abs + len)) ∧ (inp.take abs).length = abs := by
   refine ⟨⟨?_⟩, by simp; omega⟩
   unfold window
   rw [← List.drop_drop, List.take_append_drop, List.take_append_drop]
@@ -45,12 +45,14 @@ theorem roll_fields (cfg : Config) (buf : Bytes) (st : Core) (h : st.lastLineVis
   · omega
 
 /-- `ReadByLine::fill` with detection off, whatever `Core::roll` keeps: it goes on with the next
-window (which starts `consumed` bytes further and ends later), or it stops at the end of the input. -/
+window (which starts `consumed` bytes further and ends later), or it stops at the end of the input,
+or -- under a heap limit only -- the allocation fails (an error, no callback). -/
 theorem rblFill_C {cfg : Config} {lbcfg : LineBuffer.Config} {inp : Bytes} (σ : Script)
-    (hlt : lbcfg.lineterm = cfg.lineTerm.asByte) (hb : lbcfg.binary = .none) (hal : lbcfg.alloc = .eager)
+    (hlt : lbcfg.lineterm = cfg.lineTerm.asByte) (hb : lbcfg.binary = .none)
     {s : RBL} (hI : ∃ a mm rest, LineBuffer.Inv lbcfg inp s.lb s.rdr a mm rest) (hnz0 : NoZero s.rdr.script)
     (hlbbin : s.lb.binOff = none) (hllv : s.core.lastLineVisited ≤ s.lb.buffer.length)
     (hdle : s.lb.abs + s.lb.buffer.length ≤ inp.length) :
+    (lbcfg.alloc ≠ .eager ∧ ∃ s1, rblFill cfg σ s = (s1, .err) ∧ s1.core = (roll cfg s.lb.buffer s.core).1) ∨
     ∃ s1 r, rblFill cfg σ s = (s1, .ok r) ∧
       (∃ a mm rest, LineBuffer.Inv lbcfg inp s1.lb s1.rdr a mm rest) ∧ NoZero s1.rdr.script ∧
       s1.lb.binOff = none ∧ s1.core = (roll cfg s.lb.buffer s.core).1 ∧
@@ -63,8 +65,26 @@ theorem rblFill_C {cfg : Config} {lbcfg : LineBuffer.Config} {inp : Bytes} (σ :
       (r = false → s1.lb.abs = inp.length ∧ s.lb.abs + s.lb.buffer.length = inp.length) := by
   obtain ⟨a, mm, rest, hI⟩ := hI
   obtain ⟨hcle, _, _, _, _⟩ := roll_fields cfg s.lb.buffer s.core hllv
-  obtain ⟨lb1, hcons, more, a', m', rest', hres, hmore, hI2, habs, hbin, hnz, hwin, hle, hal2, hmono, hsame⟩ :=
-    lb_stepC hI hb hal hnz0 (roll cfg s.lb.buffer s.core).2 hcle
+  obtain ⟨lb1, hcons, hcase⟩ := lb_stepC hI hb hnz0 (roll cfg s.lb.buffer s.core).2 hcle
+  cases hcase with
+  | inl herr =>
+    left
+    refine ⟨herr.2, ?_⟩
+    unfold rblFill
+    generalize hrl : roll cfg s.lb.buffer s.core = rl at *
+    obtain ⟨c1, c⟩ := rl
+    dsimp only at hcons ⊢
+    simp only [hcons]
+    cases hf : lb1.fill s.rdr with
+    | mk lb2 p =>
+      cases p with
+      | mk rdr2 res =>
+        have : res = .allocErr := by have := herr.1; rw [hf] at this; exact this
+        subst this
+        exact ⟨_, rfl, rfl⟩
+  | inr hok =>
+  right
+  obtain ⟨more, a', m', rest', hres, hmore, hI2, habs, hbin, hnz, hwin, hle, hal2, hmono, hsame⟩ := hok
   unfold rblFill
   generalize hrl : roll cfg s.lb.buffer s.core = rl at *
   obtain ⟨c1, c⟩ := rl
@@ -139,25 +159,28 @@ theorem matchByLine_at_end {cfg : Config} {m : MatcherI} (σ : Script) (buf : By
 callback, `Ok`, and the buffer's absolute position is the input length. -/
 theorem rblLoop_end {cfg : Config} {m : MatcherI} {σ : Script} {lbcfg : LineBuffer.Config} {inp : Bytes}
     (hslow : isLineByLineFast cfg m (Core.new cfg false) = false)
-    (hlt : lbcfg.lineterm = cfg.lineTerm.asByte) (hb : lbcfg.binary = .none) (hal : lbcfg.alloc = .eager) :
+    (hlt : lbcfg.lineterm = cfg.lineTerm.asByte) (hb : lbcfg.binary = .none) :
     ∀ (fuel : Nat) (s : RBL), s.lb.buffer.length + 2 ≤ fuel →
       (∃ a mm rest, LineBuffer.Inv lbcfg inp s.lb s.rdr a mm rest) → NoZero s.rdr.script → s.lb.binOff = none →
       s.lb.abs + s.lb.buffer.length = inp.length → s.core.pos = s.lb.buffer.length →
       s.core.lastLineVisited ≤ s.lb.buffer.length →
-      ∃ s', rblLoop cfg m σ fuel s = (s', .ok none) ∧ s'.core.events = s.core.events ∧
-        s'.lb.abs = inp.length ∧ s'.lb.binOff = none ∧ s'.core.binaryByteOffset = s.core.binaryByteOffset := by
+      ∃ s', ((rblLoop cfg m σ fuel s = (s', .ok none) ∧ s'.lb.abs = inp.length ∧ s'.lb.binOff = none) ∨
+          (lbcfg.alloc ≠ .eager ∧ rblLoop cfg m σ fuel s = (s', .err))) ∧
+        s'.core.events = s.core.events ∧ s'.core.binaryByteOffset = s.core.binaryByteOffset := by
   intro fuel
   induction fuel with
   | zero => intro s hf; omega
   | succ fuel ih =>
     intro s hf hI hnz hbo hend hpos hllv
-    obtain ⟨s1, r, hfill, hI1, hnz1, hbo1, hcore, hwin, hle, htrue, hfalse⟩ :=
-      rblFill_C σ hlt hb hal hI hnz hbo hllv (by omega)
     obtain ⟨hcle, hrpos, hrllv, hrev, hrbin⟩ := roll_fields cfg s.lb.buffer s.core hllv
+    rcases rblFill_C σ hlt hb hI hnz hbo hllv (by omega) with
+      ⟨hne, s1, hfill, hcore⟩ | ⟨s1, r, hfill, hI1, hnz1, hbo1, hcore, hwin, hle, htrue, hfalse⟩
+    · rw [rblLoop, hfill]
+      exact ⟨s1, Or.inr ⟨hne, rfl⟩, by rw [hcore, hrev], by rw [hcore, hrbin]⟩
     rw [rblLoop, hfill]
     cases r with
     | false =>
-      refine ⟨s1, rfl, by rw [hcore, hrev], (hfalse rfl).1, hbo1, by rw [hcore, hrbin]⟩
+      refine ⟨s1, Or.inl ⟨rfl, (hfalse rfl).1, hbo1⟩, by rw [hcore, hrev], by rw [hcore, hrbin]⟩
     | true =>
       obtain ⟨habs, hmono, _, hprog⟩ := htrue rfl
       have hL1 : s1.lb.buffer.length = s.lb.buffer.length - (roll cfg s.lb.buffer s.core).2 := by omega
@@ -166,10 +189,10 @@ theorem rblLoop_end {cfg : Config} {m : MatcherI} {σ : Script} {lbcfg : LineBuf
       dsimp only
       rw [matchByLine_at_end σ s1.lb.buffer s1.core hfast hp1]
       dsimp only
-      obtain ⟨s', h1, h2, h3, h4, h5⟩ := ih { s1 with core := s1.core } (by show s1.lb.buffer.length + 2 ≤ fuel; omega)
+      obtain ⟨s', h1, h2, h5⟩ := ih { s1 with core := s1.core } (by show s1.lb.buffer.length + 2 ≤ fuel; omega)
         hI1 hnz1 hbo1 (by show s1.lb.abs + s1.lb.buffer.length = inp.length; omega) hp1
         (by show s1.core.lastLineVisited ≤ _; rw [hcore, hrllv]; exact Nat.zero_le _)
-      exact ⟨s', h1, by rw [h2]; show s1.core.events = _; rw [hcore, hrev], h3, h4,
+      exact ⟨s', h1, by rw [h2]; show s1.core.events = _; rw [hcore, hrev],
         by rw [h5]; show s1.core.binaryByteOffset = _; rw [hcore, hrbin]⟩
 
 /-- Invariant of the `ReadByLine::run` loop with context lines: the slice searcher's loop over the
@@ -200,17 +223,25 @@ def LoopEndC (cfg : Config) (m : MatcherI) (σ : Script) (inp : Bytes) (S0 : Cor
     | .ok (some n) => r1 = .ok false ∧ T1.pos = n
     | .ok none => r1 = .ok true ∧ T1.pos = inp.length ∧ s'.lb.abs = inp.length
 
+/-- the loop of `ReadByLine::run` ended with an allocation error (heap limit): its log is the slice
+searcher's log after the lines `Ls` searched so far -/
+def LoopErrC (cfg : Config) (m : MatcherI) (σ : Script) (inp : Bytes) (S0 : Core) (s' : RBL)
+    (res : Res (Option Nat)) : Prop :=
+  res = .err ∧ ∃ Ls tail S1, GoodLines cfg.lineTerm.asByte (Ls ++ tail) ∧ (Ls ++ tail).flatten = inp ∧
+    slowLoop cfg m σ inp (spansFrom 0 Ls) S0 = (S1, .ok true) ∧ S1.events = s'.core.events
+
 theorem window_take (inp : Bytes) (a n p : Nat) (hp : p ≤ n) : (window inp a n).take p = window inp a p := by
   unfold window
   rw [List.take_take, show min p n = p by omega]
 
 theorem rblLoop_C {cfg : Config} {m : MatcherI} {σ : Script} {lbcfg : LineBuffer.Config} {inp : Bytes} {S0 : Core}
-    (hmc : cfg.maxContext ≠ 0) (hbin : cfg.binary = .none)
+    (hbin : cfg.binary = .none)
     (hslow : isLineByLineFast cfg m (Core.new cfg false) = false)
-    (hlt : lbcfg.lineterm = cfg.lineTerm.asByte) (hb : lbcfg.binary = .none) (hal : lbcfg.alloc = .eager) :
+    (hlt : lbcfg.lineterm = cfg.lineTerm.asByte) (hb : lbcfg.binary = .none) :
     ∀ (fuel : Nat) (s : RBL) (Ls : List Bytes) (S1 : Core), RInvC cfg m σ lbcfg inp S0 s Ls S1 →
       2 * (inp.length - s.lb.abs) - s.lb.buffer.length + 2 ≤ fuel →
-      LoopEndC cfg m σ inp S0 (rblLoop cfg m σ fuel s).1 (rblLoop cfg m σ fuel s).2 := by
+      LoopEndC cfg m σ inp S0 (rblLoop cfg m σ fuel s).1 (rblLoop cfg m σ fuel s).2 ∨
+      (lbcfg.alloc ≠ .eager ∧ LoopErrC cfg m σ inp S0 (rblLoop cfg m σ fuel s).1 (rblLoop cfg m σ fuel s).2) := by
   intro fuel
   induction fuel with
   | zero => intro s Ls S1 _ hf; omega
@@ -218,14 +249,20 @@ theorem rblLoop_C {cfg : Config} {m : MatcherI} {σ : Script} {lbcfg : LineBuffe
     intro s Ls S1 hR hf
     obtain ⟨hllv, hpos, hJ⟩ := hR.post
     have hdle := hR.dle
-    obtain ⟨s1, r, hfill, hI1, hnz1, hbo1, hcore, hwin, hle, htrue, hfalse⟩ :=
-      rblFill_C σ hlt hb hal hR.lbinv hR.nz hR.lbbin hllv hR.dle
     obtain ⟨hcle, hrpos, hrllv, hrev, hrbin⟩ := roll_fields cfg s.lb.buffer s.core hllv
+    rcases rblFill_C σ hlt hb hR.lbinv hR.nz hR.lbbin hllv hR.dle with
+      ⟨hne, s1, hfill, hcore⟩ | ⟨s1, r, hfill, hI1, hnz1, hbo1, hcore, hwin, hle, htrue, hfalse⟩
+    · rw [rblLoop, hfill]
+      refine Or.inr ⟨hne, rfl, Ls, splitLines cfg.lineTerm.asByte (inp.drop (s.lb.abs + s.lb.buffer.length)), S1,
+        goodLines_append_allTerm hR.allT (splitLines_good _ _), ?_, hR.run, ?_⟩
+      · rw [List.flatten_append, hR.flat, splitLines_flatten, List.take_append_drop]
+      · show S1.events = s1.core.events
+        rw [hcore, hrev]; exact hR.sim.ev
     rw [rblLoop, hfill]
     cases r with
     | false =>
       have hflat : Ls.flatten = inp := by rw [hR.flat, (hfalse rfl).2]; simp
-      refine ⟨Ls, S1, .ok true, hR.allT.good, hflat, hR.run, ?_, hR.sim.bin1, hbo1, rfl, ?_, (hfalse rfl).1⟩
+      refine Or.inl ⟨Ls, S1, .ok true, hR.allT.good, hflat, hR.run, ?_, hR.sim.bin1, hbo1, rfl, ?_, (hfalse rfl).1⟩
       · show S1.events = s1.core.events
         rw [hcore, hrev]; exact hR.sim.ev
       · have := hR.sim.pos
@@ -243,7 +280,7 @@ theorem rblLoop_C {cfg : Config} {m : MatcherI} {σ : Script} {lbcfg : LineBuffe
       have E0 : ESim cfg inp s.lb.buffer (inp.take s.lb.abs).length S1 s.core := by rw [hpl]; exact hR.sim
       have X0 : XRel cfg inp s.lb.buffer (inp.take s.lb.abs).length S1 s.core s.lb.buffer.length := by
         rw [hpl]; exact hR.x
-      obtain ⟨_, E1, P1, X1⟩ := roll_sim W W' hmc E0 hR.post X0 hR.wT (by rw [hpl, hpl', hc]; exact habs)
+      obtain ⟨_, E1, P1, X1⟩ := roll_sim W W' E0 hR.post X0 hR.wT (by rw [hpl, hpl', hc]; exact habs)
         (by rw [hc]; exact hmono)
       rw [← hcore] at E1
       rw [hc, ← hcore] at P1 X1
@@ -318,12 +355,12 @@ theorem rblLoop_C {cfg : Config} {m : MatcherI} {σ : Script} {lbcfg : LineBuffe
       cases res1 with
       | err =>
         obtain ⟨tail, hgf, hff⟩ := hfull
-        exact ⟨_, T1, .err, hgf, hff, hrunfull tail (by simp), hS.fin.ev, hS.fin.bin1, hbo1, rfl⟩
+        exact Or.inl ⟨_, T1, .err, hgf, hff, hrunfull tail (by simp), hS.fin.ev, hS.fin.bin1, hbo1, rfl⟩
       | ok b =>
         cases b with
         | false =>
           obtain ⟨tail, hgf, hff⟩ := hfull
-          refine ⟨_, T1, .ok false, hgf, hff, hrunfull tail (by simp), hS.fin.ev, hS.fin.bin1, hbo1, rfl, ?_⟩
+          refine Or.inl ⟨_, T1, .ok false, hgf, hff, hrunfull tail (by simp), hS.fin.ev, hS.fin.bin1, hbo1, rfl, ?_⟩
           have : T1.pos = core2.pos + s1.lb.abs := hS.fin.pos
           show T1.pos = s1.lb.abs + core2.pos
           omega
@@ -333,14 +370,19 @@ theorem rblLoop_C {cfg : Config} {m : MatcherI} {σ : Script} {lbcfg : LineBuffe
           obtain ⟨P2, X2⟩ := hpostX rfl
           by_cases hend : s1.lb.abs + s1.lb.buffer.length = inp.length
           · -- the whole input has been searched
-            obtain ⟨s', h1, h2, h3, h4, _⟩ := rblLoop_end (σ := σ) hslow hlt hb hal fuel { s1 with core := core2 }
+            obtain ⟨s', h1, h2, _⟩ := rblLoop_end (σ := σ) hslow hlt hb fuel { s1 with core := core2 }
               (by show s1.lb.buffer.length + 2 ≤ fuel; omega) hI1 hnz1 hbo1 hend P2.2.1 P2.1
-            rw [h1]
-            refine ⟨Ls ++ lsn, T1, .ok true, goodLines_append_allTerm hR.allT hgood, by rw [hflat2, hend]; simp,
-              hrun2, by rw [h2]; exact E2.ev, E2.bin1, h4, rfl, ?_, h3⟩
-            have := E2.pos
-            have : core2.pos = s1.lb.buffer.length := P2.2.1
-            omega
+            have hfl3 : (Ls ++ lsn).flatten = inp := by rw [hflat2, hend]; simp
+            rcases h1 with ⟨h1, h3, h4⟩ | ⟨hne, h1⟩
+            · rw [h1]
+              refine Or.inl ⟨Ls ++ lsn, T1, .ok true, goodLines_append_allTerm hR.allT hgood, hfl3,
+                hrun2, by rw [h2]; exact E2.ev, E2.bin1, h4, rfl, ?_, h3⟩
+              have := E2.pos
+              have : core2.pos = s1.lb.buffer.length := P2.2.1
+              omega
+            · rw [h1]
+              exact Or.inr ⟨hne, rfl, Ls ++ lsn, [], T1, by simpa using goodLines_append_allTerm hR.allT hgood,
+                by simpa using hfl3, hrun2, by rw [h2]; exact E2.ev⟩
           · have hlast : s1.lb.buffer.getLast? = some cfg.lineTerm.asByte := by
               cases hal2 with
               | inl h => exact h
